@@ -876,3 +876,7 @@ silent("c17_literal_header_template", "C17", [(PATTERN, _C17_OLD_REPORT, '''    
                     ]
                 )
             )''')])
+
+# ---------------------------------------------------------------- a position used by its truth value in a statement test (C19-s23)
+fire("c19_position_truth_value", ["C19", "C18"], [(LNODE, "                    self._set_parent(cur_parent, cur_parent_field, cur_parent_index)\n\n                    self._attach(\"replace\")", "                    if cur_parent_index:\n                        self._set_parent(cur_parent, cur_parent_field, cur_parent_index)\n                    else:\n                        self._set_parent(cur_parent, cur_parent_field, None)\n\n                    self._attach(\"replace\")")], None)
+silent("c19_position_is_none_test", ["C19", "C18"], [(LNODE, "                    self._set_parent(cur_parent, cur_parent_field, cur_parent_index)\n\n                    self._attach(\"replace\")", "                    if cur_parent_index is not None:\n                        self._set_parent(cur_parent, cur_parent_field, cur_parent_index)\n                    else:\n                        self._set_parent(cur_parent, cur_parent_field, None)\n\n                    self._attach(\"replace\")")])
